@@ -925,8 +925,51 @@ def run_C12(ctx):
         total = rng.randint(6, 30)
         if rng.random() < 0.6:
             spec['rules'] = gen.const_rules(rng, total * dt, random_units=False)
-        kind = rng.choice(['split', 'split-units', 'rerun', 'rerun-new'])
+        kind = rng.choice(['split', 'split-units', 'rerun', 'rerun-new', 'rerun', 'split-stop'])
         case = {'t': 'c12', 'kind': kind, 'spec': spec}
+        if kind.startswith('rerun') and rng.random() < 0.45:
+            # state-dependent control rules; the rule / sensor objects are the same before and after the reset
+            from harness import ctl_h
+            spec['load']['coef'] = [abs(spec['load']['coef'][0]), 0.0, 0.0, 0.0, 0.0]
+            rules = ctl_h.gen_rules(rng, spec, total * dt, len(spec['elems']) + 1)
+            if spec['motor']['i0'] is not None and rng.random() < 0.6:
+                # a soft start from rest whose target is passed during the first schedule
+                spec['init'] = {'pos': [0.0, spec['init']['pos'][1]], 'speed': [0.0, spec['init']['speed'][1]]}
+                spec['load']['coef'] = [min(spec['load']['coef'][0], 0.01), 0.0, 0.0, 0.0, 0.0]
+                probe, _ = sim.simulate(dict(spec, rules=None, ops=[gen.run_op(rng, dt_si=dt, steps=(total, total), unit='sec')[0]]))
+                if not probe['build_error'] and not probe['error'] and probe['els']:
+                    enc = rng.randrange(len(probe['els']))
+                    ps = probe['els'][enc]['angular position']
+                    tgt = ps[max(1, len(ps) // 6)]
+                    if tgt > ps[0] and tgt > 0:
+                        rules = [{'type': 'prop', 'enc': enc, 'target': gen.in_unit(rng, 'AngularPosition', tgt, True),
+                                  'mult': rng.uniform(1.1, 3), 'pmin': 0.2}]
+            spec['rules'] = rules
+            case['kind'] = kind = kind + '-state-rules'
+        if kind == 'split-stop':
+            # a run ended early by a stop condition, then a continuation to the same final time = one uninterrupted run
+            one, _, _ = gen.run_op(rng, dt_si=dt, steps=(total, total), unit='sec')
+            probe, _ = sim.simulate(dict(spec, ops=[one]))
+            if probe['build_error'] or probe['error'] or len(probe['time']) < 4:
+                continue
+            st = random_stop(rng, spec)
+            series, _ = sensor_series(spec, probe, st)
+            kk = rng.randrange(1, len(series) - 1)
+            lo, hi = sorted([series[kk], series[kk + 1]])
+            thr = (lo + hi) / 2
+            st.pop('kind', None)
+            knd = {'enc': 'AngularPosition', 'tac': 'AngularSpeed', 'amp': 'Current'}[st['sensor']]
+            st['thr'] = gen.in_unit(rng, knd, thr, True)
+            stopped = dict(one, stop=st)
+            trs, _ = sim.simulate(dict(spec, ops=[stopped]))
+            k = len(trs.get('time') or []) - 1
+            if trs.get('error') or k < 1 or k > total - 2:      # a continuation needs at least two steps (dt < T)
+                continue
+            rest, _, _ = gen.run_op(rng, dt_si=dt, steps=(total - k, total - k), unit='sec')
+            case['ops_a'] = [one]
+            case['ops_b'] = [stopped, rest]
+            eval_c12(ctx, case)
+            continue
         if kind.startswith('split'):
             n1 = rng.randint(2, total - 2)
             u1 = 'sec'
@@ -951,7 +994,8 @@ def run_C12(ctx):
         eval_c12(ctx, case)
     ctx.rule = ('random models (half of them self-locking, most with ConstantPWM controllers, time-dependent loads): '
                 'one run vs run + continuation at every split point (continuation also in ms / min / hour), and '
-                'schedule vs schedule + reset + re-applied initial conditions + same schedule (same or new solver); '
+                'schedule vs schedule + reset + re-applied initial conditions + same schedule (same or new solver, also with state-dependent '
+                'control rules whose objects are re-used), run ended by a stop condition + continuation vs one uninterrupted run; '
                 'histories compared sample by sample; non-trivial = at least 3 instants')
 
 
@@ -968,7 +1012,19 @@ def eval_c12(ctx, case):
     ctx.count('kind ' + case['kind'])
     # the longer of the two schedules against the Lean model (whole history, when short enough)
     total = sum(r.get('n_after', 0) - r['n_before'] for r in trb['ops'] if r['op'] == 'run')
-    if ctx.driver.available and total <= 18 and sb['load']['coef'][4] == 0:
+    simple_rules = all(r['type'] == 'const' for r in (spec.get('rules') or []))
+    if ctx.driver.available and not simple_rules:
+        # state-dependent rules: lock-step (exact rationals of whole histories explode)
+        reqs = sim.lockstep_requests(sb, trb, max_steps=40)
+        for (j, _), ans in zip(reqs, ctx.driver.ask([ln for _, ln in reqs])):
+            d = sim.compare_step(trb, j, ans)
+            if d is not None:
+                if near_threshold(sb, trb):
+                    ctx.count('history excluded: decision within rounding of its threshold')
+                else:
+                    ctx.mismatch(case, d, ans[:200])
+                break
+    elif ctx.driver.available and total <= 18 and sb['load']['coef'][4] == 0:
         st, recs = sim.parse_hist(ctx.driver.ask([sim.hist_line(sb, trb)])[0])
         d = sim.compare_hist(trb, st, recs)
         if d is not None:
